@@ -360,6 +360,7 @@ def run(ctx):
     parser_state_fresh(ctx, py)
     variables_complete(ctx, py)
     arguments_by_name(ctx, py)
+    slicer_helpers(ctx, py)
     optional_fields(ctx, py)
     ctx.floor('encoder-exhaustive', 9)
     ctx.floor('keyword-agreement', 8)
@@ -817,6 +818,20 @@ def slice_closure(ctx, py: PyRepo):
         elif isinstance(arg, ast.Name) and lp is not None and isinstance(lp.target, ast.Tuple) and len(lp.target.elts) == 2 \
                 and ast.unparse(lp.target.elts[1]) == arg.id and re.fullmatch(rf'{CUT}\.items\(\)', ast.unparse(lp.iter)):
             key, st = (ast.unparse(e) for e in lp.target.elts)
+            # ... and nothing that is needed is passed over: a kept statement that the proof names, and the floating hypothesis of a
+            # variable in use, IS emitted (every path on which one of the two holds reaches the emission)
+            skipped = []
+            for sp in astpaths.paths(lp.body):
+                if sp.end == 'raise' or any(any(x is n for x in ast.walk(a)) for a in sp.actions):
+                    continue
+                true_ = [c for c, b in sp.conds if b]
+                if any(re.fullmatch(rf'{key} in (\w+)', c) for c in true_):
+                    skipped.append('a statement named by the proof')
+                if f'isinstance({st}, FloatingStatement)' in true_ and any(re.fullmatch(rf'{st}\.metavariable in (\w+)', c) for c in true_):
+                    skipped.append('the floating hypothesis of a variable in use')
+            ctx.ob('slice-closure', 'needed-statements-are-emitted', not skipped,
+                   f'the pass over `{CUT}` passes over ' + ' and '.join(sorted(set(skipped))) + ' without emitting it: the slice lacks a '
+                   'statement its proof refers to (or the `$f` of a variable it declares)', py.where(SLICER, lp))
             for sp in astpaths.paths(lp.body):
                 if not any(any(x is n for x in ast.walk(a)) for a in sp.actions):
                     continue
@@ -894,6 +909,200 @@ def slice_closure(ctx, py: PyRepo):
     ctx.analysed['slice: emission sites'] = len(emitted)
     ctx.analysed['slice: origins scanned'] = {'constants': sorted(scan_c), 'variables': sorted(scan_m)}
     ctx.floor('slice-closure', 12)
+
+
+def slicer_helpers(ctx, py: PyRepo):
+    """the small functions the slicer is built from, decided on the values they return (pyeval) - no test runs any of them:
+    * deconstruct_compressed_proof: the labels are the words between the first `(` and the first `)` after it, the step letters
+      what follows that `)`;
+    * deconstruct_provable: a bare lemma has no antecedents; a block is (all its statements but the last, the last);
+    * construct_axiom: the axiom registered for a lemma carries the lemma's label and terms, alone when there are no antecedents,
+      otherwise at the end of a block that starts with all of them, in order;
+    * the constant scan: get_constants collects the symbol of every application and recurses into its subterms;
+      statements_get_constants collects them for every structured statement and recurses into blocks."""
+    from ..core.pyeval import Decline as _Decline, PyEval as _PE0, show as _sh
+    mi = py.modules[SLICER]
+
+    class _PE:
+        """paths of a helper, or none when it is written in a way the evaluator does not read (the rule is then not instantiated)"""
+        def paths(self, f):
+            try:
+                return _PE0().paths(f)
+            except _Decline as d:
+                ctx.advisory(f'metamath_extract_slice.{f.name}: not read by the evaluator ({d}); its value rule is not instantiated')
+                return []
+
+    def strip_cast(v):
+        while isinstance(v, tuple) and v[:2] == ('call', ('name', 'cast')) and len(v[2]) == 2:
+            v = v[2][1]
+        return v
+
+    # --- deconstruct_compressed_proof
+    fn = mi.functions.get('deconstruct_compressed_proof')
+    if fn is not None and len(fn.args.args) == 1:
+        P = ('attr', ('param', fn.args.args[0].arg), 'proof')
+        BEGIN = ('binop', 'Add', ('call', ('attr', P, 'find'), (('const', '('),), ()), ('const', 1))
+        END = ('call', ('attr', P, 'find'), (('const', ')'), BEGIN), ())
+        want = ('tuple', (('call', ('name', 'tuple'), (('call', ('attr', ('sub', P, ('slice', BEGIN, END, None)), 'split'), (), ()),), ()),
+                          ('sub', P, ('slice', ('binop', 'Add', END, ('const', 1)), None, None))))
+        rets = [p.end[1] for p in _PE().paths(fn) if p.end[0] == 'return']
+        if rets:
+            ctx.ob('slice-closure', 'helpers/labels-between-the-parentheses', rets == [want],
+               'deconstruct_compressed_proof must return (the words of proof[find("(") + 1 : find(")", begin)], proof[end + 1:]); it returns '
+               + '; '.join(_sh(r)[:90] for r in rets) + ' - a label is cut off or a parenthesis is read as a label / a step',
+               py.where(SLICER, fn))
+    # --- deconstruct_provable
+    fn = mi.functions.get('deconstruct_provable')
+    if fn is not None and len(fn.args.args) == 1:
+        S = ('param', fn.args.args[0].arg)
+        ST = ('attr', S, 'statements')
+        probs = []
+        for p in _PE().paths(fn):
+            if p.end[0] != 'return':
+                continue
+            v = p.end[1]
+            bare = any(c == ('call', ('name', 'isinstance'), (S, ('name', 'ProvableStatement')), ()) and b for c, b in p.conds)
+            if v[0] != 'tuple' or len(v[1]) != 2:
+                probs.append('does not return a pair')
+                continue
+            a, c_ = strip_cast(v[1][0]), v[1][1]
+            if bare:
+                if (a, c_) != (('tuple', ()), S):
+                    probs.append(f'a bare lemma gives ({_sh(a)[:30]}, {_sh(c_)[:30]})')
+            else:
+                all_but_last = ('sub', ST, ('slice', None, ('const', -1), None))
+                if a not in (all_but_last, ('call', ('name', 'tuple'), (all_but_last,), ())) or c_ != ('sub', ST, ('const', -1)):
+                    probs.append(f'a block gives ({_sh(a)[:40]}, {_sh(c_)[:40]})')
+        if any(p.end[0] == 'return' for p in _PE().paths(fn)):
+          ctx.ob('slice-closure', 'helpers/block-is-antecedents-then-lemma', not probs,
+               'deconstruct_provable must split a block into (all statements but the last, the last): ' + '; '.join(probs)
+               + ' - a hypothesis or `$d` condition of the lemma is lost, or a hypothesis is taken for the lemma', py.where(SLICER, fn))
+    # --- construct_axiom
+    fn = mi.functions.get('construct_axiom')
+    if fn is not None and len(fn.args.args) == 2:
+        A, Cq = (('param', a.arg) for a in fn.args.args)
+        AX = ('call', ('name', 'AxiomaticStatement'), (('attr', Cq, 'label'), ('attr', Cq, 'terms')), ())
+        probs = []
+        for p in _PE().paths(fn):
+            if p.end[0] != 'return':
+                continue
+            empty = any((c == A and b is False) or (c == ('call', ('name', 'len'), (A,), ()) and b is False)
+                        or (c == ('cmp', '==', ('call', ('name', 'len'), (A,), ()), ('const', 0)) and b is True) for c, b in p.conds)
+            want = AX if empty else ('call', ('name', 'Block'), (('tuple', (('star', A), AX)),), ())
+            if p.end[1] != want:
+                probs.append(f'with{"out" if empty else ""} antecedents it returns `{_sh(p.end[1])[:80]}`')
+        if any(p.end[0] == 'return' for p in _PE().paths(fn)):
+          ctx.ob('slice-closure', 'helpers/registered-axiom-is-the-lemma', not probs,
+               'construct_axiom must return AxiomaticStatement(label, terms) of the lemma, alone or at the end of Block((*antecedents, ..)): '
+               + '; '.join(probs), py.where(SLICER, fn))
+    # --- the notation axiom that goes with a constructor axiom: `X-is-pattern` -> `X-is-sugar`, when the database has it
+    sup_fn = mi.functions.get('supporting_database_for_provable')
+    cands = [g for g in ([x for x in ast.walk(sup_fn) if isinstance(x, ast.FunctionDef) and x is not sup_fn] if sup_fn is not None else [])
+             + list(mi.functions.values()) if "'is-sugar'" in ast.unparse(g) and ".endswith('is-pattern')" in ast.unparse(g)
+             and g is not sup_fn and len(g.args.args) >= 1]
+    if len(cands) == 1:
+        g = cands[0]
+        lab = [a.arg for a in g.args.args if f"{a.arg}.endswith('is-pattern')" in ast.unparse(g)]
+        L = ('param', lab[0] if lab else g.args.args[0].arg)
+        SUF = ('const', 'is-pattern')
+        sugar_forms = []
+        for lo in (('const', 0), None):
+            for up in (('unop', 'USub', ('call', ('name', 'len'), (SUF,), ())), ('const', -len('is-pattern'))):
+                sugar_forms.append(('binop', 'Add', ('sub', L, ('slice', lo, up, None)), ('const', 'is-sugar')))
+        sugar_forms.append(('binop', 'Add', ('call', ('attr', L, 'removesuffix'), (SUF,), ()), ('const', 'is-sugar')))
+        ENDS = ('call', ('attr', L, 'endswith'), (SUF,), ())
+        probs = []
+        n_ret = 0
+        for p in _PE().paths(g):
+            if p.end[0] != 'return':
+                continue
+            n_ret += 1
+            ends = next((b for c, b in p.conds if c == ENDS), None)
+            known = next((b for c, b in p.conds if c[0] == 'cmp' and c[1] == 'in' and c[2] in sugar_forms), None)
+            if known is None:
+                nk = next((b for c, b in p.conds if c[0] == 'cmp' and c[1] == 'not in' and c[2] in sugar_forms), None)
+                known = None if nk is None else (not nk)
+            v = p.end[1]
+            if ends is False and v != ('const', None):
+                probs.append('a label that is not an `..is-pattern` gets a notation axiom')
+            if ends is True and known is False and v != ('const', None):
+                probs.append('a notation axiom the database has not declared yet is asked for')
+            if ends is True and known is True and v not in sugar_forms:
+                probs.append(f'the notation axiom of `X-is-pattern` is computed as `{_sh(v)[:60]}`, not `X-is-sugar`')
+            if ends is None or (ends is True and known is None):
+                probs.append('the tests `label.endswith("is-pattern")` / `<X-is-sugar> in <kept statements>` were not both found on a path')
+        ctx.ob('slice-closure', 'helpers/notation-axiom-of-a-constructor', n_ret >= 3 and not probs,
+               f'{g.name}: ' + '; '.join(sorted(set(probs))) + ' - the slice lacks (or asks for a missing) `#Notation` axiom of a constructor '
+               'its proof uses', py.where(SLICER, g))
+    # --- the set of labels the slice is built from is closed: the proof's labels, the notation axioms that go with them, and the
+    #     syntax dependencies of all of these (unions only; every union is one of the three)
+    if sup_fn is not None and len(cands) == 1:
+        unions = []
+        users = [f_ for f_ in list(mi.functions.values()) if f_ is not cands[0]
+                 and any(isinstance(x, ast.Name) and x.id == cands[0].name for x in ast.walk(f_))] or [sup_fn]
+        for n_ in [x for f_ in users for x in ast.walk(f_)]:
+            if isinstance(n_, ast.AugAssign) and isinstance(n_.op, ast.BitOr) and isinstance(n_.target, ast.Name):
+                unions.append((n_.target.id, ast.unparse(n_.value)))
+            elif isinstance(n_, ast.Call) and isinstance(n_.func, ast.Attribute) and n_.func.attr in ('update', 'union') \
+                    and isinstance(n_.func.value, ast.Name) and n_.args:
+                unions.append((n_.func.value.id, ' '.join(ast.unparse(a) for a in n_.args)))
+        sets_ = {t for t, _v in unions}
+        label_sets = [t for t in sets_ if any(cands[0].name in v for t2, v in unions if t2 == t)]
+        P2 = next((a.arg for f_ in users for a in f_.args.args if 'deps' in a.arg), sup_fn.args.args[2].arg if len(sup_fn.args.args) >= 3 else 'syntax_deps')
+        ok_sugar = len(label_sets) == 1
+        ok_deps = ok_sugar and any(t == label_sets[0] and re.search(rf'\b{P2}\b', v) for t, v in unions)
+        ctx.ob('slice-closure', 'label-closure/notation-axioms-and-syntax-dependencies', ok_sugar and ok_deps,
+               'the set of labels a slice is built from must be extended by the notation axiom of every constructor axiom the proof names '
+               f'({cands[0].name}) and by the syntax dependencies (`{P2}`) of all of them: '
+               + ('the notation axioms are not added' if not ok_sugar else 'the syntax dependencies are not added'), py.where(SLICER, sup_fn))
+    # --- the constant scan
+    from ..core import astpaths as AP
+    fn = mi.functions.get('get_constants')
+    if fn is not None and len(fn.args.args) == 1:
+        T = fn.args.args[0].arg
+        loops = [x for x in fn.body if isinstance(x, ast.For) and ast.unparse(x.iter) == T and isinstance(x.target, ast.Name)]
+        ok = len(loops) == 1
+        if ok:
+            t = loops[0].target.id
+            hit = [sp for sp in AP.paths(loops[0].body) if sp.holds(f'isinstance({t}, Application)') is True]
+            txt = ' '.join(ast.unparse(a) for sp in hit for a in sp.actions)
+            ok = bool(hit) and all(f'{t}.symbol' in ' '.join(ast.unparse(a) for a in sp.actions)
+                                   and f'{fn.name}({t}.subterms)' in ' '.join(ast.unparse(a) for a in sp.actions) for sp in hit)
+            acc = {ast.unparse(a.targets[0]) for sp in hit for a in sp.actions if isinstance(a, ast.Assign)} | \
+                  {ast.unparse(c.func.value) for sp in hit for a in sp.actions for c in ast.walk(a)
+                   if isinstance(c, ast.Call) and isinstance(c.func, ast.Attribute) and c.func.attr in ('update', 'add')}
+            rets = [r for r in ast.walk(fn) if isinstance(r, ast.Return)]
+            ok = ok and len(acc) == 1 and bool(rets) and all(r.value is not None and ast.unparse(r.value) in acc for r in rets)
+        ctx.ob('slice-closure', 'helpers/constants-of-terms', ok,
+               'get_constants must, for every application among the terms, collect its symbol and the constants of its subterms, and return '
+               'what it collected: a constant that is missed is not declared in the slice', py.where(SLICER, fn))
+    fn = mi.functions.get('statements_get_constants')
+    if fn is not None and len(fn.args.args) == 1:
+        T = fn.args.args[0].arg
+        loops = [x for x in fn.body if isinstance(x, ast.For) and ast.unparse(x.iter) == T and isinstance(x.target, ast.Name)]
+        ok = len(loops) == 1
+        if ok:
+            t = loops[0].target.id
+            paths_ = AP.paths(loops[0].body)
+            s_hit = [sp for sp in paths_ if sp.holds(f'isinstance({t}, StructuredStatement)') is True]
+            b_hit = [sp for sp in paths_ if sp.holds(f'isinstance({t}, Block)') is True]
+
+            def feeds(sp, needle):
+                return any(isinstance(c, ast.Call) and isinstance(c.func, ast.Attribute) and c.func.attr in ('update', '__ior__')
+                           and needle in ast.unparse(c) or isinstance(a, ast.AugAssign) and needle in ast.unparse(a.value)
+                           for a in sp.actions for c in ast.walk(a))
+            ok = bool(s_hit) and bool(b_hit) and all(feeds(sp, f'get_constants({t}.terms)') for sp in s_hit) \
+                and all(feeds(sp, f'{fn.name}({t}.statements)') for sp in b_hit)
+            shape = bool(s_hit) and bool(b_hit)
+        else:
+            shape = False
+        if not shape:
+            ctx.advisory('statements_get_constants does not dispatch on StructuredStatement / Block inside one loop over its parameter; '
+                         'rule helpers/constants-of-statements is not instantiated')
+        else:
+          ctx.ob('slice-closure', 'helpers/constants-of-statements', ok,
+               'statements_get_constants must feed get_constants(<statement>.terms) for every structured statement and recurse into the '
+               'statements of a block: a constant that is missed is not declared in the slice', py.where(SLICER, fn))
 
 
 def arguments_by_name(ctx, py: PyRepo):
